@@ -1527,8 +1527,49 @@ enum RecvOut {
     Deserialize,
 }
 
+/// First byte of a record that the receiver's message type refuses to deserialize.
+const BAD_RECORD: u8 = 37;
+
+/// The message type of the receive side: like `Msg`, but a record that starts with `BAD_RECORD` is not a valid
+/// encoding. Such a record fails for the request of its own index and for nobody else.
+#[derive(Clone, PartialEq, Eq)]
+pub struct RMsg<N: ArrayLength>(pub GenericArray<u8, N>);
+
+impl<N: ArrayLength> Debug for RMsg<N> {
+    fn fmt(&self, f: &mut std::fmt::Formatter<'_>) -> std::fmt::Result {
+        write!(f, "RMsg({})", hex(&self.0))
+    }
+}
+
+#[derive(Debug)]
+pub struct BadRecord;
+impl std::fmt::Display for BadRecord {
+    fn fmt(&self, f: &mut std::fmt::Formatter<'_>) -> std::fmt::Result {
+        write!(f, "record starts with the invalid marker")
+    }
+}
+impl std::error::Error for BadRecord {}
+
+impl<N: ArrayLength> Serializable for RMsg<N> {
+    type Size = N;
+    type DeserializationError = BadRecord;
+
+    fn serialize(&self, buf: &mut GenericArray<u8, Self::Size>) {
+        buf.copy_from_slice(&self.0);
+    }
+
+    fn deserialize(buf: &GenericArray<u8, Self::Size>) -> Result<Self, Self::DeserializationError> {
+        if buf[0] == BAD_RECORD { Err(BadRecord) } else { Ok(RMsg(buf.clone())) }
+    }
+}
+
+/// What the request for a record with these bytes must resolve to.
+fn want_out(bytes: &[u8]) -> RecvOut {
+    if bytes[0] == BAD_RECORD { RecvOut::Deserialize } else { RecvOut::Msg(bytes.to_vec()) }
+}
+
 async fn recv_task<N: ArrayLength>(r: UnorderedReceiver<FeedStream, Vec<u8>>, i: usize) -> RecvOut {
-    match r.recv::<Msg<N>, usize>(i).await {
+    match r.recv::<RMsg<N>, usize>(i).await {
         Ok(m) => RecvOut::Msg(m.0.to_vec()),
         Err(RecvError::EndOfStream(_)) => RecvOut::EndOfStream,
         Err(RecvError::DeserializeFailed(_)) => RecvOut::Deserialize,
@@ -1627,6 +1668,7 @@ fn recv_script(n_reqs: usize, n_chunks: usize, timing: usize) -> Vec<Act> {
 struct RStats {
     resolved_ok: u64,
     resolved_eos: u64,
+    resolved_bad_record: u64,
     parked_beyond_end: u64,
     overflow_registrations: u64,
     ring_registrations: u64,
@@ -1638,6 +1680,7 @@ struct RStats {
 fn flush_rstats(rec: &mut Recorder, s: &RStats) {
     rec.add("recv_resolved_ok", s.resolved_ok);
     rec.add("recv_resolved_end_of_stream", s.resolved_eos);
+    rec.add("recv_resolved_invalid_record", s.resolved_bad_record);
     rec.add("recv_parked_beyond_end", s.parked_beyond_end);
     rec.add("recv_overflow_registrations", s.overflow_registrations);
     rec.add("recv_ring_registrations", s.ring_registrations);
@@ -1703,7 +1746,7 @@ mod native_recv {
                         }
                         if i < n_complete {
                             let want = &case.data[i * sz..(i + 1) * sz];
-                            if *out != RecvOut::Msg(want.to_vec()) {
+                            if *out != want_out(want) {
                                 let kind = if matches!(out, RecvOut::Msg(_)) { "wrong_message" } else { "error_instead_of_message" };
                                 return Some(finding("recv(i) did not return the i-th message of the stream", sig(kind), json!({"request": i, "got": format!("{out:?}"), "want": hex(want)})));
                             }
@@ -1753,7 +1796,7 @@ mod native_recv {
                     };
                     if !m.is_done(id) {
                         // model of the read cursor = number of requests that resolved with a message
-                        let next = tid.iter().flatten().filter(|t| matches!(m.result(**t), Some(Ok(RecvOut::Msg(_))))).count();
+                        let next = tid.iter().flatten().filter(|t| matches!(m.result(**t), Some(Ok(RecvOut::Msg(_) | RecvOut::Deserialize)))).count();
                         if i > next + case.cap {
                             st.overflow_registrations += 1;
                         } else if i > next {
@@ -1810,6 +1853,7 @@ mod native_recv {
             for t in tid.iter().flatten() {
                 match m.result(*t) {
                     Some(Ok(RecvOut::Msg(_))) => st.resolved_ok += 1,
+                    Some(Ok(RecvOut::Deserialize)) => st.resolved_bad_record += 1,
                     Some(Ok(RecvOut::EndOfStream)) => st.resolved_eos += 1,
                     _ => {}
                 }
@@ -1936,7 +1980,15 @@ mod native_recv {
             let sz = *r.choose(SIZES);
             let n_complete = r.range(1, 48) as usize;
             let tail = if r.below(3) == 0 { r.below(sz as u64) as usize } else { 0 };
-            let data = r.bytes(n_complete * sz + tail);
+            let mut data = r.bytes(n_complete * sz + tail);
+            // records that are not a valid encoding for the receiver's message type (about every third case)
+            if idx % 3 == 1 {
+                for i in 0..n_complete {
+                    if r.below(5) == 0 {
+                        data[i * sz] = BAD_RECORD;
+                    }
+                }
+            }
             // chunking: random cut points, occasionally empty chunks
             let mut chunks = Vec::new();
             let mut left = data.len();
@@ -2422,7 +2474,7 @@ mod sh {
                 let out = with_ws!(sz, N => sh_recv_world::<N>(sz, &d2, &ch2, cap, &rq2));
                 let mut bad: Option<Value> = None;
                 for (i, o) in &out {
-                    let ok = if *i < n_complete { *o == RecvOut::Msg(d2[i * sz..(i + 1) * sz].to_vec()) } else { *o == RecvOut::EndOfStream };
+                    let ok = if *i < n_complete { *o == want_out(&d2[i * sz..(i + 1) * sz]) } else { *o == RecvOut::EndOfStream };
                     if !ok && bad.is_none() {
                         bad = Some(json!({"request": i, "got": format!("{o:?}")}));
                     }
@@ -2669,7 +2721,7 @@ mod small {
                 };
                 let mut ok = true;
                 for (i, o) in &out {
-                    let good = if *i < n_complete { *o == RecvOut::Msg(data[i * sz..(i + 1) * sz].to_vec()) } else { *o == RecvOut::EndOfStream };
+                    let good = if *i < n_complete { *o == want_out(&data[i * sz..(i + 1) * sz]) } else { *o == RecvOut::EndOfStream };
                     if !good {
                         ok = false;
                         rec.violation(
@@ -2852,7 +2904,14 @@ mod wk {
         let cap = *r.choose(&[2usize, 3, 4, 4, 5, 6, 8, 8, 16]);
         let n = r.range(2, if small { 10 } else { 40 }) as usize;
         let n_tasks = r.range(1, 4) as usize;
-        let data: Vec<u8> = (0..n).flat_map(|i| payload(i, sz)).collect();
+        let mut data: Vec<u8> = (0..n).flat_map(|i| payload(i, sz)).collect();
+        if r.below(3) == 0 {
+            for i in 0..n {
+                if r.below(5) == 0 {
+                    data[i * sz] = BAD_RECORD;
+                }
+            }
+        }
         let (recv, feed) = new_receiver(cap);
         let mut pool: Pool<RecvOut> = Pool::new(n_tasks);
         let mut prios: Vec<u32> = (0..n as u32).collect();
@@ -2922,7 +2981,7 @@ mod wk {
                 Some(Ok(out)) => {
                     st.requests_completed += 1;
                     st.messages_checked += 1;
-                    if *out != RecvOut::Msg(payload(i, sz)) {
+                    if *out != want_out(&data[i * sz..(i + 1) * sz]) {
                         return Err(finding("recv(i) did not return the i-th message of the stream",
                                            json!({"component": "UnorderedReceiver", "kind": "wrong_message", "executor": "pool"}),
                                            json!({"request": i, "got": format!("{out:?}"), "geometry": geometry, "script": script})));
@@ -3115,6 +3174,157 @@ mod wk {
         let mut rec = Recorder::new("C14", "verif_c14_miri_waker_identity_x1");
         identity_workload(&mut rec, env.seed, 12, true, &|_| true, None);
         rec.sample(json!({"workload": "waker identity under miri", "cases": 12}));
+        rec.finish();
+    }
+}
+
+// ---------------------------------------------------------------------------------------------
+// (E) upstream failure: the byte stream reports an error and (unlike a well-behaved stream) keeps producing
+// ---------------------------------------------------------------------------------------------
+//
+// The gateway reads a channel through `LogErrors(transport stream)` -> `UnorderedReceiver`. When the transport
+// reports an error for one chunk, that chunk's bytes are gone; records are located by byte offset only, so nothing
+// that arrives afterwards may be handed out: the first record that is not complete before the error fails with
+// EndOfStream, later ones fail or stay pending, and no request ever returns bytes from behind the gap.
+
+#[cfg(not(feature = "shuttle"))]
+mod upstream {
+    use typenum::Unsigned;
+
+    use super::*;
+    use crate::{helpers::LogErrors, verif::vlib::{Manual, catch_fut}};
+
+    struct ResStream {
+        items: VecDeque<Result<Vec<u8>, std::io::Error>>,
+    }
+
+    impl Stream for ResStream {
+        type Item = Result<Vec<u8>, std::io::Error>;
+        fn poll_next(mut self: Pin<&mut Self>, _cx: &mut Context<'_>) -> Poll<Option<Self::Item>> {
+            Poll::Ready(self.items.pop_front())
+        }
+    }
+
+    type Recv = UnorderedReceiver<LogErrors<ResStream, Vec<u8>, std::io::Error>, Vec<u8>>;
+
+    async fn task<N: ArrayLength>(r: Recv, i: usize) -> RecvOut {
+        match r.recv::<RMsg<N>, usize>(i).await {
+            Ok(m) => RecvOut::Msg(m.0.to_vec()),
+            Err(RecvError::EndOfStream(_)) => RecvOut::EndOfStream,
+            Err(RecvError::DeserializeFailed(_)) => RecvOut::Deserialize,
+        }
+    }
+
+    fn one_case<N: ArrayLength>(r: &mut VRng, idx: usize) -> Result<(String, u64, u64), Finding> {
+        let sz = N::USIZE;
+        let n = r.range(1, 14) as usize;
+        let mut data = r.bytes(n * sz);
+        if idx % 4 == 3 {
+            for i in 0..n {
+                if r.below(6) == 0 {
+                    data[i * sz] = BAD_RECORD;
+                }
+            }
+        }
+        let mut chunks: Vec<Vec<u8>> = Vec::new();
+        let mut o = 0;
+        while o < data.len() {
+            let c = (r.range(1, 3 * sz as u64 + 1) as usize).min(data.len() - o);
+            chunks.push(data[o..o + c].to_vec());
+            o += c;
+        }
+        // the error replaces chunk `e` (its bytes are lost) or, for e == chunks.len(), follows the last chunk
+        let e = r.below(chunks.len() as u64 + 1) as usize;
+        let before: usize = chunks[..e].iter().map(Vec::len).sum();
+        let mut items: VecDeque<Result<Vec<u8>, std::io::Error>> = VecDeque::new();
+        for (k, c) in chunks.iter().enumerate() {
+            if k == e {
+                items.push_back(Err(std::io::Error::new(std::io::ErrorKind::ConnectionReset, "connection reset by peer")));
+                if r.bool() {
+                    continue; // the failed chunk is lost; otherwise the transport re-delivers it after the error
+                }
+            }
+            items.push_back(Ok(c.clone()));
+        }
+        if e == chunks.len() {
+            items.push_back(Err(std::io::Error::new(std::io::ErrorKind::ConnectionReset, "connection reset by peer")));
+        }
+        let cap = r.range(2, 8) as usize;
+        let recv: Recv = UnorderedReceiver::new(Box::pin(LogErrors::new(ResStream { items })), NonZeroUsize::new(cap).unwrap());
+        let mut order: Vec<usize> = (0..n).collect();
+        for w in order.chunks_mut(cap) {
+            r.shuffle(w);
+        }
+        let mut m: Manual<'static, Result<RecvOut, String>> = Manual::new();
+        for i in &order {
+            m.spawn(catch_fut(task::<N>(recv.clone(), *i)));
+        }
+        let mut pick = |ready: &[usize]| (ready.len() - 1).min(1);
+        m.run(&mut pick, 100_000);
+        let complete_before = before / sz;
+        let geometry = json!({"message_size": sz, "records": n, "chunks": chunks.iter().map(Vec::len).collect::<Vec<_>>(), "error_at_chunk": e,
+                              "bytes_before_error": before, "capacity": cap, "request_order": order});
+        let (mut delivered, mut refused) = (0u64, 0u64);
+        for (t, i) in order.iter().enumerate() {
+            let want_bytes = &data[i * sz..(i + 1) * sz];
+            match m.result(t) {
+                Some(Err(p)) => {
+                    return Err(finding("panic inside the receive buffer", json!({"component": "UnorderedReceiver", "kind": "panic", "panic": panic_class(p)}),
+                                       json!({"request": i, "panic": p, "geometry": geometry})));
+                }
+                Some(Ok(out)) if *i < complete_before => {
+                    if *out != want_out(want_bytes) {
+                        return Err(finding("a record that arrived completely before the upstream error was not delivered to its request",
+                                           json!({"component": "UnorderedReceiver+LogErrors", "kind": "record_before_error_lost"}),
+                                           json!({"request": i, "got": format!("{out:?}"), "geometry": geometry})));
+                    }
+                    delivered += 1;
+                }
+                Some(Ok(out)) => {
+                    if matches!(out, RecvOut::Msg(_) | RecvOut::Deserialize) {
+                        return Err(finding("bytes from behind an upstream error were handed out as a record",
+                                           json!({"component": "UnorderedReceiver+LogErrors", "kind": "data_after_error_delivered"}),
+                                           json!({"request": i, "got": format!("{out:?}"), "sent_for_this_record": hex(want_bytes), "geometry": geometry})));
+                    }
+                    refused += 1;
+                }
+                None => {
+                    if *i < complete_before {
+                        return Err(finding("quiescent although the data for a pending request has arrived (lost wake-up)",
+                                           json!({"component": "UnorderedReceiver+LogErrors", "kind": "stall"}),
+                                           json!({"request": i, "geometry": geometry})));
+                    }
+                    refused += 1;
+                }
+            }
+        }
+        Ok((format!("{sz}/{n}/{}/{e}/{cap}", chunks.len()), delivered, refused))
+    }
+
+    #[test]
+    fn verif_c14_recv_upstream_error() {
+        let env = vlib::env();
+        let mut rec = Recorder::new("C14", "verif_c14_recv_upstream_error");
+        let only = replay_case();
+        let cases = env.pick(8000, 160_000);
+        for idx in 0..cases {
+            if !env.mine(idx) || only.is_some_and(|c| c != idx) {
+                continue;
+            }
+            let mut r = VRng::new(env.seed ^ 0xC14E_0E01, idx as u64);
+            let sz = *r.choose(&[1usize, 2, 3, 4]);
+            rec.eval();
+            let res = with_ws!(sz, N => { let _ = N::USIZE; one_case::<N>(&mut r, idx) });
+            match res {
+                Ok((shape, delivered, refused)) => {
+                    rec.distinct(&shape);
+                    rec.add("upstream_error_records_delivered_before_error", delivered);
+                    rec.add("upstream_error_records_refused_after_error", refused);
+                }
+                Err(f) => report(&mut rec, f, idx, json!({"workload": "upstream error followed by more data"})),
+            }
+        }
+        rec.sample(json!({"workload": "upstream error followed by more data", "cases": cases}));
         rec.finish();
     }
 }
